@@ -244,11 +244,13 @@ def emHit (pre : Prefixes K) (t : Lut K) (T : EmTable K) (u : UnitV K) : Option 
 
 /-- the loop over `unit.expr.atoms()` at the end of `_check_em_conversion`:
     `Unit(str(atom)).dimensions` is looked up in the system; `MissingMKSCurrent` becomes
-    `MKSCGSConversionError` -/
+    `MKSCGSConversionError`.  (`Unit(str(atom))` re-parses the symbol's name; a symbol the parser
+    produced is a fixed point of the parser's name mapping — assumed here, checked by the harness
+    on every atom it meets.) -/
 def emAtomLoop (pre : Prefixes K) (t : Lut K) (S : USys K) : List String → Except Err Unit
   | [] => .ok ()
   | a :: rest =>
-    match mkUnit pre t (UExpr.sym (nameToSymbol a)) with
+    match mkUnit pre t (UExpr.sym a) with
     | .error e => .error e
     | .ok bu =>
       match S.lookup bu.dim with
@@ -263,7 +265,7 @@ def checkEm (pre : Prefixes K) (t : Lut K) (T : EmTable K) (S : USys K) (u : Uni
   else
     match emHit pre t T u with
     | some (p, r) =>
-      match mkUnit pre t (UExpr.sym (nameToSymbol (p ++ r.partner))) with
+      match mkUnit pre t (UExpr.sym (r.partnerSym p)) with
       | .error e => .error e
       | .ok emUnit =>
         if u.dim.hasCurrent && S.hasCurrent then
@@ -286,7 +288,7 @@ def checkEmTouches (pre : Prefixes K) (t : Lut K) (T : EmTable K) (S : USys K) (
     match emHit pre t T u with
     | some _ => if u.dim.hasCurrent && S.hasCurrent then [u.dim] else []
     | none => u.expr.atoms.filterMap fun a =>
-        match mkUnit pre t (UExpr.sym (nameToSymbol a)) with
+        match mkUnit pre t (UExpr.sym a) with
         | .ok bu => some bu.dim
         | .error _ => none
 
@@ -360,7 +362,7 @@ def checkEmTo (pre : Prefixes K) (t : Lut K) (T : EmTable K) (u target : UnitV K
   else
     match emHit pre t T u with
     | some (p, r) =>
-      match mkUnit pre t (UExpr.sym (nameToSymbol (p ++ r.partner))) with
+      match mkUnit pre t (UExpr.sym (r.partnerSym p)) with
       | .error e => .error e
       | .ok emUnit => if target.dim == emUnit.dim then .ok (some ⟨some target, emUnit, r.factor⟩) else .ok none
     | none => .ok none
